@@ -70,18 +70,47 @@ struct LiveIrrd {
     port: u16,
     errors: Arc<Mutex<BTreeMap<String, String>>>,
     log: Arc<Mutex<Vec<String>>>,
+    /// every query with the answer it got: (query line, status letter, items of a member list)
+    qlog: Arc<Mutex<Vec<Value>>>,
+}
+
+/// the query line and its answer in the vocabulary of spec/IrrdProto.tla: [c, n, st, items]; items are the
+/// words of a member list (`!i`), "good" per object (`!m`), and only counted for route lists
+fn qrecord(q: &str, answer: Option<&str>, objects: usize) -> Value {
+    let body = q.strip_prefix('!').unwrap_or(q);
+    let (c, rest) = body.split_at(body.len().min(1));
+    let n = match c {
+        "i" => rest.trim_end_matches(",1").to_string(),
+        "m" => rest.split_once(',').map(|(_, n)| n.to_string()).unwrap_or_default(),
+        _ => rest.to_string(),
+    };
+    let st = answer.and_then(|a| a.chars().next()).map(String::from).unwrap_or_else(|| "-".into());
+    let mut lines = answer.unwrap_or("").lines();
+    let _status = lines.next();
+    let items: Vec<String> = match (c, st.as_str()) {
+        ("i", "A") => lines.next().unwrap_or("").split_whitespace().map(String::from).collect(),
+        ("m", "A") => (0..objects.max(1)).map(|_| "good".to_string()).collect(),
+        _ => vec![],
+    };
+    json!({"c": c, "n": n, "st": st, "items": items, "rec": rest.ends_with(",1")})
 }
 
 fn start_live(db: IrrDb, twice: bool) -> LiveIrrd {
+    start_live_dribble(db, twice, 0)
+}
+
+/// `dribble` > 0: every answer is written in pieces of that many bytes (a response never arrives in one read)
+fn start_live_dribble(db: IrrDb, twice: bool, dribble: usize) -> LiveIrrd {
     let listener = TcpListener::bind(("127.0.0.1", 0)).expect("bind");
     let port = listener.local_addr().unwrap().port();
     let errors: Arc<Mutex<BTreeMap<String, String>>> = Arc::new(Mutex::new(BTreeMap::new()));
     let log: Arc<Mutex<Vec<String>>> = Arc::new(Mutex::new(Vec::new()));
-    let (e2, l2) = (errors.clone(), log.clone());
+    let qlog: Arc<Mutex<Vec<Value>>> = Arc::new(Mutex::new(Vec::new()));
+    let (e2, l2, q2) = (errors.clone(), log.clone(), qlog.clone());
     std::thread::spawn(move || {
         for stream in listener.incoming() {
             let Ok(stream) = stream else { continue };
-            let (db, errors, log) = (db.clone(), e2.clone(), l2.clone());
+            let (db, errors, log, qlog) = (db.clone(), e2.clone(), l2.clone(), q2.clone());
             std::thread::spawn(move || {
                 let _ = stream.set_nodelay(true);
                 let mut w = stream.try_clone().expect("clone");
@@ -94,7 +123,10 @@ fn start_live(db: IrrDb, twice: bool) -> LiveIrrd {
                     }
                     let mut d = db.clone();
                     d.errors = errors.lock().unwrap().clone();
-                    if let Some(mut a) = d.answer(&q) {
+                    let answer = d.answer(&q);
+                    let doubled = twice && q.starts_with("!mfilter-set") && answer.as_deref().is_some_and(|a| a.starts_with('A'));
+                    qlog.lock().unwrap().push(qrecord(&q, answer.as_deref(), if doubled { 2 } else { 1 }));
+                    if let Some(mut a) = answer {
                         // a filter-set query answered with the object twice: the resolver stops at
                         // the first match and the rest of the response must be drained
                         if twice && q.starts_with("!mfilter-set") && a.starts_with('A') {
@@ -103,6 +135,21 @@ fn start_live(db: IrrDb, twice: bool) -> LiveIrrd {
                                 let n: usize = head[1..].parse().unwrap_or(0);
                                 a = format!("A{}\n{}\n{}C\n", 2 * n + 1, obj, obj);
                             }
+                        }
+                        if dribble > 0 {
+                            let mut broken = false;
+                            for piece in a.as_bytes().chunks(dribble) {
+                                if w.write_all(piece).is_err() {
+                                    broken = true;
+                                    break;
+                                }
+                                let _ = w.flush();
+                                std::thread::yield_now();
+                            }
+                            if broken {
+                                break;
+                            }
+                            continue;
                         }
                         if w.write_all(a.as_bytes()).is_err() {
                             break;
@@ -113,7 +160,7 @@ fn start_live(db: IrrDb, twice: bool) -> LiveIrrd {
             });
         }
     });
-    LiveIrrd { port, errors, log }
+    LiveIrrd { port, errors, log, qlog }
 }
 
 fn errors_for(errs: &Value, names: &Value) -> BTreeMap<String, String> {
@@ -161,7 +208,7 @@ fn main() {
                     std::thread::spawn(move || {
                         let mut lines = Vec::new();
                         for g in chunk {
-                            let irrd = start_live(IrrDb::from_json(&g["irr"]), false);
+                            let irrd = start_live_dribble(IrrDb::from_json(&g["irr"]), false, g["irr"]["dribble"].as_u64().unwrap_or(0) as usize);
                             for c in g["cases"].as_array().into_iter().flatten() {
                                 let mut child = std::process::Command::new(&bin)
                                     .args(["-H", "127.0.0.1", "-P", &irrd.port.to_string(), "-q", c["expr_str"].as_str().unwrap_or("")])
@@ -218,7 +265,11 @@ fn main() {
             let prop = args.get(3).cloned().unwrap_or_else(|| "C17".into());
             std::panic::set_hook(Box::new(|_| {}));
             for g in groups {
-                let irrd = start_live(IrrDb::from_json(&g["irr"]), g["twice"].as_bool().unwrap_or(false));
+                let irrd = start_live_dribble(
+                    IrrDb::from_json(&g["irr"]),
+                    g["twice"].as_bool().unwrap_or(false),
+                    g["irr"]["dribble"].as_u64().unwrap_or(0) as usize,
+                );
                 let mut ev = match bgpfu::RpslEvaluator::new("127.0.0.1", irrd.port) {
                     Ok(e) => e,
                     Err(_) => continue,
@@ -226,6 +277,7 @@ fn main() {
                 for (k, c) in g["history"].as_array().into_iter().flatten().enumerate() {
                     *irrd.errors.lock().unwrap() = errors_for(&c["errs"], &g["names"]);
                     let qstart = irrd.log.lock().unwrap().len();
+                    let qlstart = irrd.qlog.lock().unwrap().len();
                     let expr_str = c["expr_str"].as_str().unwrap_or("").to_string();
                     let parsed: Result<rpsl::expr::MpFilterExpr, _> = expr_str.parse();
                     let (outcome, ranges) = match parsed {
@@ -241,6 +293,7 @@ fn main() {
                     };
                     let (atoms, extra) = observed(&ranges);
                     let queries: Vec<String> = irrd.log.lock().unwrap()[qstart..].to_vec();
+                    let qlog: Vec<Value> = irrd.qlog.lock().unwrap()[qlstart..].to_vec();
                     let outcome_cls = if outcome == "ok" { "ok" } else if outcome == "panic" { "panic" } else { "err" };
                     writeln!(
                         stdout.lock(),
@@ -249,7 +302,7 @@ fn main() {
                                "expr_str": expr_str, "errs": {"asSets": c["errs"]["asSets"], "ases": c["errs"]["ases"],
                                "rtSets": c["errs"]["rtSets"], "fltSets": c["errs"]["fltSets"]},
                                "pos": k + 1, "outcome": outcome_cls, "detail": outcome, "atoms": atoms, "extra": extra,
-                               "ranges": ranges, "queries": queries})
+                               "ranges": ranges, "queries": queries, "qlog": qlog, "names": g["names"]})
                     )
                     .unwrap();
                 }
